@@ -19,6 +19,13 @@
 (*                           assigned SO FAR (a map being filled)          *)
 (*   "id_includes_desc"      the description is hashed into the id         *)
 (*   "id_drops_meaning"      the meaning is not mixed into the id          *)
+(*   "depth_first"           the nodes of a message are collected by a     *)
+(*                           recursive walk (a plural's inner placeholders *)
+(*                           right after it) instead of breadth first      *)
+(*   "id_key_joined"         the id is a function of text and meaning      *)
+(*                           joined without separator                      *)
+(*   "tag_case_kept"         a tag's name is not lower-cased before it is  *)
+(*                           turned into a placeholder name                *)
 (*   "skips_call_params"     the pass that names placeholders does not     *)
 (*                           reach messages inside {param} blocks of calls *)
 (***************************************************************************)
@@ -28,16 +35,20 @@ VARIABLES cas, todo, asg
 vars == <<cas, todo, asg>>
 
 Body  == MsgFamBody(cas)
-Nodes == MsgNodes(Body)
+\* the nodes in the order the (possibly deviating) implementation visits them
+Nodes ==
+  IF "depth_first" \in Dev
+  THEN LET ps == MsgNodePartsDFS(Body) IN [i \in 1..Len(ps) |-> [p |-> ps[i], b |-> PartBase(ps[i])]]
+  ELSE MsgNodes(Body)
 
 EmptyAsg == [x \in {} |-> <<>>]
 
-Family == MsgFamFlat(MaxParts) \cup MsgFamPlural(MaxInner) \cup MsgFamExtra
+Family == MsgFamFlat(MaxParts) \cup MsgFamPlural(MaxInner) \cup MsgFamExtra \cup MsgFamNested \cup MsgFamSplit
 AllCases == IF OnlyCase # "" THEN {x \in Family : MsgFamId(x) = OnlyCase} ELSE Family
 
 Init ==
   /\ cas \in AllCases
-  /\ todo = MsgBaseSet(MsgNodes(MsgFamBody(cas)))
+  /\ todo = MsgBaseSet(MsgNodes(MsgFamBody(cas)))   \* (the set does not depend on the order)
   /\ asg = EmptyAsg
 
 FirstTodo ==
@@ -109,7 +120,8 @@ NameProps ==
 (* (3) the id.                                                             *)
 (***************************************************************************)
 IdModel(m) ==
-  IF "id_includes_desc" \in Dev THEN MsgMix(MsgIdAbs(m), MsgFp(m.desc))
+  IF "id_key_joined" \in Dev THEN MsgFp(MsgKeyString(m.body) \o m.meaning)
+  ELSE IF "id_includes_desc" \in Dev THEN MsgMix(MsgIdAbs(m), MsgFp(m.desc))
   ELSE IF "id_drops_meaning" \in Dev THEN MsgFp(MsgKeyString(m.body))
   ELSE MsgIdAbs(m)
 
@@ -148,6 +160,36 @@ PluralInKey ==
     /\ \A db \in MsgIxSeqs(1, Len(MsgInnerPool)) :
          LET b2 == MsgFamBody([cas EXCEPT !.db = db]) IN
          (PlaceholderString(b2) = PlaceholderString(Body)) <=> (MsgKeyString(b2) = ks)
+
+\* text and meaning are two arguments of the id, not one joined string: every
+\* split of a string into text | meaning gives another id
+IdSeparatesTextAndMeaning ==
+  (todo = {} /\ cas.kind = "split") =>
+    \A i \in 1..Len(MsgSplitStrings[cas.s]) :
+       i # cas.at => IdModel(Mk(Body, MsgFamMeaning(cas), "d"))
+                     # IdModel(Mk(MsgFamBody([cas EXCEPT !.at = i]), MsgFamMeaning([cas EXCEPT !.at = i]), "d"))
+
+\* the names are those of the breadth-first visiting order, whatever the order
+\* the implementation collects the nodes in
+BreadthFirst ==
+  todo = {} =>
+    LET bfs == MsgNodes(Body) bn == MsgNamesOf(bfs) ns == Nodes IN
+    \A i \in 1..Len(ns) : FinalName(ns, ns[i]) = MsgNameOfPart(bfs, bn, ns[i].p)
+
+\* the base name of a tag does not depend on the letter case of its name
+DevTagBase(t) ==
+  IF "tag_case_kept" \in Dev
+  THEN LET raw == MsgAlnumRun(t, IF MsgTagIsEnd(t) THEN 3 ELSE 2)
+           nm == IF MsgPrettyTag(MsgToLower(raw)) # MsgToLower(raw) THEN MsgPrettyTag(MsgToLower(raw)) ELSE raw IN
+       ToUpperUnderscore((IF MsgTagIsEnd(t) THEN "END_" ELSE IF MsgTagIsSelf(t) THEN "" ELSE "START_") \o nm)
+  ELSE MsgTagBase(t)
+
+TagCaseInsensitive ==
+  todo = {} =>
+    LET ns == MsgNodes(Body) IN
+    \A i \in 1..Len(ns) : ns[i].p.k = "tag" =>
+       /\ DevTagBase(ns[i].p.s) = ns[i].b
+       /\ MsgTagBase(MsgToLower(ns[i].p.s)) = ns[i].b
 
 \* (4) where the message sits does not matter
 NamesIn(kind, ns) ==
